@@ -43,6 +43,9 @@ ProbeDoc ==
   \o Elem(RM \o Str_name \o Q \o A \o Q \o <<32, 99, 61>> \o Q \o <<97, 32>> \o DQ \o <<32, 115, 107, 105, 112, 32>> \o DQ \o <<32, 98>> \o Q)   \* c='a " skip " b'
   \o Elem(RM \o Str_name \o DQ \o A \o Q \o <<115>> \o DQ)                          \* name="<A>'s": not the name A
   \o Elem(RM \o Str_name \o Q \o A \o DQ \o <<32, 122>> \o Q)                       \* name='<A>" z'
+  \* skip together with unwrap-block on an element that could be unwrapped
+  \o DS \o RM \o Str_name \o Q \o A \o Q \o Str_skip \o <<32, 117, 110, 119, 114, 97, 112, 45, 98, 108, 111, 99, 107>> \o DE
+     \o <<NL, 123, NL, 120, NL, 125, NL>> \o DS \o <<47>> \o RM \o DE \o <<NL>>
   \o Elem(RM \o <<32, 110, 97, 109, 101>>)                                            \* name without value
   \o Elem(RM)                                                                          \* no name
   \o ElemNamed(<<120, 120>>, <<120, 120>> \o Str_name \o Q \o A \o Q)                 \* unregistered tag name
